@@ -26,7 +26,10 @@ warnings.simplefilter("ignore")
 
 HERE = os.path.dirname(os.path.abspath(__file__))
 VERIF = os.path.dirname(HERE)
-LEAN = os.path.join(VERIF, "lean")
+LEAN = os.environ.get("UPVERIF_LEAN") or os.path.join(VERIF, "lean")
+REPO = os.environ.get("UPVERIF_REPO", "/repo")
+if REPO != "/repo":
+    sys.path.insert(0, REPO)
 DRIVER = os.path.join(LEAN, ".lake", "build", "bin", "upverif-driver")
 sys.path.insert(0, HERE)
 
